@@ -75,6 +75,7 @@ class _S:
 
 
 def gen_source(rng, shape=None, dtype=None, allow_creation=True):
+    aux = shape is not None           # an auxiliary source (second operand, part of a concatenate/stack)
     if shape is None:
         shape = [rng.choice((1, 2, 3, 4, 5, 6)) for _ in range(rng.choice((1, 1, 2, 2, 2, 3)))]
     shape = list(shape)
@@ -98,7 +99,7 @@ def gen_source(rng, shape=None, dtype=None, allow_creation=True):
         s = {"k": kind, "start": start, "stop": stop, "step": step, "shape": shape, "dtype": "int64", "chunks": chunks}
         if rng.random() < 0.25:
             s["dtype"] = s["dt"] = rng.choice(("float64", "float32", "int32"))
-            s["dtobj"] = rng.random() < 0.5          # passed as numpy.dtype / as str
+            s["dtobj"] = aux or rng.random() < 0.5   # passed as numpy.dtype / as str (str only for the spine's source)
         return s
     start = rng.randint(-3, 3)
     s = {"k": "linspace", "start": start, "stop": start + rng.randint(1, 5), "num": shape[0], "shape": shape,
@@ -107,7 +108,7 @@ def gen_source(rng, shape=None, dtype=None, allow_creation=True):
         s["endpoint"] = False
     if rng.random() < 0.15:
         s["dtype"] = s["dt"] = "float32"
-        s["dtobj"] = rng.random() < 0.5
+        s["dtobj"] = aux or rng.random() < 0.5
     return s
 
 
